@@ -229,7 +229,7 @@ def run_case(ck, rng, stats, samples):
         mres = common.run_lines(model, ['label %s %s %s %s' % (','.join(hexs(e) for e in ex) or '-', ','.join(hexs(t) for t in exp_templates_model), act_macros_m, bef)])[0][0]
         mexp = common.unhexs(mres[1:]) if mres.startswith('S') else None
         rl = [ref_interp(t, pats, act_macros_r) for t in exp_templates_ref]
-        rexp = None if any(x is None for x in rl) else b' '.join(([existing] if existing else []) + rl)
+        rexp = None if any(x is None for x in rl) else b' '.join(([existing] if existing else []) + [x for x in rl if x != b''])      # a label that interpolates to nothing adds nothing
         got = None
         for b in sb.snapshot(src).values():
             m = re.search(rb'^X-Label: (.*)$', b, re.M)
